@@ -67,6 +67,9 @@ def analyze(scenario, log):
     buf_got = [0 for _ in objs["buf"]]
     timers = collections.defaultdict(list)   # pid -> list of dict(due, sig, alive)
     notif = collections.defaultdict(list)    # pid -> list of (time, sig, kind)
+    believes = collections.defaultdict(set)   # pid -> resources it acquired and was never told it lost (every return since was SUCCESS)
+    pqvar = {}                                # (pid, variable) -> priority-queue handle last stored there
+    ev_time, ev_wait = {}, {}                 # (owner, variable) -> time of the user event whose handle is there; pid -> awaited time
     intr_used = set()                         # (pid, index into notif[pid]) of interrupts already matched to a return
     dump = {}
     hist = {}
@@ -105,6 +108,7 @@ def analyze(scenario, log):
         if q in ended:
             return
         ended[q] = (t, how)
+        believes[q].clear()
         end_times[q].append(t)
         end_events.append((q, t, cur_li[0]))
         for rw in res_waits:
@@ -148,6 +152,9 @@ def analyze(scenario, log):
         # ---- C08: end of an instant — a resource freed during it is not left free while somebody who was already waiting still waits
         if k in ("c", "r", "s", "e", "x"):
             tline = int(w[3]) if k in ("c", "r", "s") else int(w[2])
+            # ---- C01: the clock never runs backwards
+            if tline < instant[0]:
+                bad("C01", "the clock went backwards: an action at log line %d ran at t=%d after one at t=%d" % (li, tline, instant[0]))
             if tline > instant[0]:
                 for r_ in range(len(holder)):
                     if holder[r_] is None and freed_at[r_] >= 0:
@@ -167,6 +174,8 @@ def analyze(scenario, log):
         if k == "c":
             pid, pc, t = int(w[1]), int(w[2]), int(w[3])
             cmd = w[4:]
+            if cmd[0] == "waite":
+                ev_wait[pid] = ev_time.get((pid if int(cmd[1]) < 8 else -1, int(cmd[1])))
             if pid in ended and pc == 0:
                 del ended[pid]         # restarted
             started.add(pid)
@@ -187,7 +196,12 @@ def analyze(scenario, log):
                 # stop of a running process ends it at once (recorded when the call returns)
             continue
         if k == "s":
-            open_call.pop(int(w[1]), None)
+            oc_s = open_call.pop(int(w[1]), None)
+            if oc_s is not None and oc_s[2][0] == "rel" and int(oc_s[2][1]) in believes[int(w[1])]:
+                # the driver skips a release when the library says the caller is not the holder
+                bad("C05", "process %d acquired resource %d, every call of it since returned SUCCESS (no PREEMPTED, interrupt or other "
+                    "signal told it otherwise), yet at t=%s the library says it does not hold the resource: a program releasing what it "
+                    "was granted would release somebody else's holding" % (int(w[1]), int(oc_s[2][1]), w[3]))
             res_waits[:] = [rw for rw in res_waits if not (rw[0] == int(w[1]) and rw[4] is None)]
             continue
         if k == "e":
@@ -218,6 +232,12 @@ def analyze(scenario, log):
             immediate = immediate and t == t0
             op = cmd[0]
             a = [int(x) for x in cmd[1:]]
+            if val != 0:
+                believes[pid].clear()          # any other signal is the cue to look at one's holdings again
+            elif op in ("acq", "pre") and a[0] < len(holder):
+                believes[pid].add(a[0])
+            elif op == "rel":
+                believes[pid].discard(a[0])
             if op in ("acq", "pre"):
                 for rw in res_waits:
                     if rw[0] == pid and rw[4] is None and rw[2] == t0 and rw[1] == a[0]:
@@ -284,6 +304,12 @@ def analyze(scenario, log):
                 else:
                     for tm in timers[pid]:
                         tm["sure"] = False
+            if op == "usched":
+                ev_time[(pid if a[0] < 8 else -1, a[0])] = t + a[1]
+            if op == "waite" and val == 0:
+                due = ev_wait.pop(pid, None)
+                if due is not None and due != t:
+                    bad("C01", "process %d waited for an event scheduled for t=%d and was resumed with SUCCESS at t=%d" % (pid, due, t))
             if op == "waitp":
                 for wc in waitp_calls:
                     if wc[0] == pid and wc[3] is None and wc[2] == t0:
@@ -429,6 +455,7 @@ def analyze(scenario, log):
                     bad("C12", "priority queue %d issued handle %d twice (or zero)" % (a[0], h))
                 pq_entries[a[0]][h] = (a[1], a[2])
                 pq_changes[a[0]].append((t, len(pq_entries[a[0]])))
+                pqvar[(pid, a[3])] = h
             if op == "kget" and a[0] < len(pq_entries):
                 obj = int(extra.get("obj", 0))
                 q = a[0]
@@ -446,8 +473,31 @@ def analyze(scenario, log):
                 elif val != 0 and obj != 0:
                     bad("C12", "priority queue get by process %d returned %d but delivered object %d" % (pid, val, obj))
             if op in ("kcancel", "kreprio", "kpos") and a[0] < len(pq_entries):
-                # the handle is in a variable; resolve by the most recent kput into that variable is not tracked: mark unknown
-                pq_unknown[a[0]] = True
+                # the handle is in a (process-local) variable, written by this process's latest successful kput into it
+                q = a[0]
+                h = pqvar.get((pid, a[1])) if a[1] < 8 else None
+                if h is None or pq_unknown[q]:
+                    pq_unknown[q] = True
+                elif op == "kreprio":
+                    if h in pq_entries[q]:
+                        pq_entries[q][h] = (pq_entries[q][h][0], a[2])
+                    else:
+                        pq_unknown[q] = True      # the driver skips it when the object is gone: cannot get here
+                elif op == "kcancel":
+                    if (val == 1) != (h in pq_entries[q]):
+                        bad("C12", "priority queue %d: cancel of handle %d returned %d but the object is %s" %
+                            (q, h, val, "queued" if h in pq_entries[q] else "not queued (delivered or cancelled before)"))
+                        pq_unknown[q] = True
+                    elif val == 1:
+                        del pq_entries[q][h]
+                        pq_changes[q].append((t, len(pq_entries[q])))
+                elif op == "kpos":
+                    order = sorted(pq_entries[q], key=lambda hh: (-pq_entries[q][hh][1], hh))
+                    want = order.index(h) + 1 if h in pq_entries[q] else 0
+                    if val != want:
+                        bad("C12", "priority queue %d: position of handle %d reported as %d at t=%d; by priority (as last changed), then "
+                            "order of arrival, it is %d (queue, best first: %s)" %
+                            (q, h, val, t, want, [(hh, pq_entries[q][hh][1]) for hh in order]))
             # ---------------- recording ----------------
             if op == "rstart":
                 rec.setdefault((a[0], a[1]), []).append([t, None])
